@@ -24,9 +24,11 @@ import (
 	"fmt"
 	"io"
 	"maps"
+	"math/rand/v2"
 	"os"
 	"path"
 	"path/filepath"
+	"strconv"
 	"sync"
 
 	"github.com/opencontainers/go-digest"
@@ -488,7 +490,39 @@ func (s *Store) writeIndexFile() error {
 	if err != nil {
 		return fmt.Errorf("failed to marshal index file: %w", err)
 	}
-	return os.WriteFile(s.indexPath, indexJSON, 0666)
+	return writeFileAtomic(s.indexPath, indexJSON, 0666)
+}
+
+// writeFileAtomic writes data to a temporary file next to path and renames it
+// over path, so that a reader (or a process restarted after a crash in the
+// middle of the write) sees either the old or the new content, never a
+// truncated file.
+func writeFileAtomic(path string, data []byte, perm os.FileMode) error {
+	var f *os.File
+	var tmpPath string
+	for try := 0; ; try++ {
+		tmpPath = path + ".tmp" + strconv.FormatUint(uint64(rand.Uint32()), 10)
+		var err error
+		// O_EXCL: never write through a leftover or concurrently used temp file
+		f, err = os.OpenFile(tmpPath, os.O_WRONLY|os.O_CREATE|os.O_EXCL, perm)
+		if err == nil {
+			break
+		}
+		if !os.IsExist(err) || try >= 10000 {
+			return err
+		}
+	}
+	_, err := f.Write(data)
+	if closeErr := f.Close(); err == nil {
+		err = closeErr
+	}
+	if err == nil {
+		err = os.Rename(tmpPath, path)
+	}
+	if err != nil {
+		os.Remove(tmpPath)
+	}
+	return err
 }
 
 // GC removes garbage from Store. Unsaved index will be lost. To prevent unexpected
